@@ -51,30 +51,30 @@ Check (C06_direct_answers_end_to_end : forall msg q rs an ns ar e1 e2 h ty,
   lenN rs = an + ns + ar -> an <= 65535 -> ns <= 65535 -> ar <= 65535 ->
   read_header msg (c_new msg) = (c_set_pos (c_new msg) 12, Ok h) ->
   h_qd h = 1 /\ h_an h = an /\ h_ns h = ns /\ h_ar h = ar ->
-  flag_qr (h_flags h) = true -> flag_tc (h_flags h) = false ->
-  forall x xs, filter (sem_match q ty) (firstn (N.to_nat an) rs) = x :: xs -> flag_rcode (h_flags h) = 0 ->
+  flag_qr (h_flags h) = true -> flag_tc (h_flags h) = false -> Forall typed (firstn (N.to_nat an) rs) ->
+  forall x xs, filter (sem_match q ty) (firstn (N.to_nat an) rs) = x :: xs -> sem_rcode rs an h = 0 ->
   from_msg msg ty =
   Ok (mkRRset (qtext q) (sq_class q) (fold_left N.min (map sr_ttl (x :: xs)) 4294967295)
-              (map (fun y => rdata_val (sr_data y)) (x :: xs)))).
+              (map (fun y => sval (sr_data y)) (x :: xs)))).
 Check (C06_follows_chain_end_to_end : forall msg q rs an ns ar e1 e2 h ty,
   lenN msg <= 65535 -> 12 <= lenN msg -> questions_stand msg 12 [q] e1 -> records_stand msg e1 rs e2 ->
   lenN rs = an + ns + ar -> an <= 65535 -> ns <= 65535 -> ar <= 65535 ->
   read_header msg (c_new msg) = (c_set_pos (c_new msg) 12, Ok h) ->
   h_qd h = 1 /\ h_an h = an /\ h_ns h = ns /\ h_ar h = ar ->
-  flag_qr (h_flags h) = true -> flag_tc (h_flags h) = false ->
+  flag_qr (h_flags h) = true -> flag_tc (h_flags h) = false -> Forall typed (firstn (N.to_nat an) rs) ->
   forall rends pn t os' x xs, rstands msg e1 rs rends ->
   schain q ty 12 (qtext q) (precs (N.to_nat an) e1 rs rends 0) pn t os' ->
-  filter (smatch q ty t) os' = x :: xs -> flag_rcode (h_flags h) = 0 ->
+  filter (smatch q ty t) os' = x :: xs -> sem_rcode rs an h = 0 ->
   from_msg msg ty = Ok (mkRRset t (sq_class q) (fold_left N.min (map pttl (x :: xs)) 4294967295) (map pval (x :: xs)))).
 Check (C06_chain_noanswer_end_to_end : forall msg q rs an ns ar e1 e2 h ty,
   lenN msg <= 65535 -> 12 <= lenN msg -> questions_stand msg 12 [q] e1 -> records_stand msg e1 rs e2 ->
   lenN rs = an + ns + ar -> an <= 65535 -> ns <= 65535 -> ar <= 65535 ->
   read_header msg (c_new msg) = (c_set_pos (c_new msg) 12, Ok h) ->
   h_qd h = 1 /\ h_an h = an /\ h_ns h = ns /\ h_ar h = ar ->
-  flag_qr (h_flags h) = true -> flag_tc (h_flags h) = false ->
+  flag_qr (h_flags h) = true -> flag_tc (h_flags h) = false -> Forall typed (firstn (N.to_nat an) rs) ->
   forall rends pn t os', rstands msg e1 rs rends ->
   schain q ty 12 (qtext q) (precs (N.to_nat an) e1 rs rends 0) pn t os' ->
-  filter (smatch q ty t) os' = [] -> Forall (fun o => smatch q T_CNAME t o = false) os' -> flag_rcode (h_flags h) = 0 ->
+  filter (smatch q ty t) os' = [] -> Forall (fun o => smatch q T_CNAME t o = false) os' -> sem_rcode rs an h = 0 ->
   from_msg msg ty = Err NoAnswer).
 Check (C06_chain_example : from_msg example_chain_msg T_A = Ok (mkRRset [x62; x2e] 1 30 [RD_A 84281096])).
 Check (C06_end_to_end_example : from_msg example_msg T_A = Ok (mkRRset [x61; x2e] 1 60 [RD_A 16909060])).
